@@ -13,7 +13,8 @@ WEIGHTS = {'create': 30, 'iter': 22, 'conv': 8, 'drop': 10, 'clone': 6}
 
 
 def run(ctx):
-    histcheck.run(ctx, MODULE, WEIGHTS, TAGS, lean_extra=EXTRA)
+    histcheck.run(ctx, MODULE, WEIGHTS, TAGS, lean_extra=EXTRA,
+                  release_quick_filter=lambda h: any(op.split()[0] in ('iter',) for op in h))
     # constructors that need `T: Copy` (from_header_and_slice, From<&[T]>, From<&str>, From<String>) and every
     # header/element size-alignment class: the shape-matrix harness, contents read back
     from vlib import layout_corr
